@@ -523,3 +523,8 @@ Proof.
     destruct (IH _ Hwf1) as [Hwf2 [Ht Ho]]. split; [exact Hwf2|]. split; [exact Ht|].
     constructor; [eauto|exact Ho].
 Qed.
+
+Theorem heap_sim_empty h :
+  fst (run empty h) = proj (fst (hrun hempty h)) /\
+  Forall2 (fun x y => exists hp, x = out_of hp y) (snd (run empty h)) (snd (hrun hempty h)).
+Proof. exact (proj2 (heap_sim h hempty hwf_empty)). Qed.
